@@ -392,8 +392,172 @@ func runC05(c *Ctx) {
 		R.Add("S.concat-all", "(*service.packageParse).completePack / all slots, ascending", "", st, d)
 		R.Require("S.concat-all", 1, "")
 	}
+	c.deliverCompleteOnly()
 	R.Explain = "Decided for every decoded header (any package number, any total) and any parser state: the slot index and the concatenation loop are in range (E1), " +
 		"the timestamp record dereferenced after a slot store exists (paired-map lemma, checked structurally and then used by E1), a rejected package number leaves no side effect, " +
 		"and the message returned as complete carries a freshly concatenated body equal to its raw data and the completion flag. Exact delivery over arrival orders, duplicates and interleavings is not decided; " +
-		"that stored bodies do not alias a reused buffer is C09's clause."
+		"The consumer of the message channel hands a message to the response matcher, the reply function or a handler callback only behind a test that it is complete (or that filtering is off). " +
+		"That stored bodies do not alias a reused buffer is C09's clause."
+}
+
+// deliverCompleteOnly: sub-packages are filtered until complete. In every service function, a message received from
+// the message channel (or a *Message parameter handed to a user callback) is passed on only on paths that crossed a
+// branch edge on which hasComplete() of that message is true or the filter flag is false.
+func (c *Ctx) deliverCompleteOnly() {
+	R := c.R
+	R.Rules["S.deliver-complete-only"] = "a message taken from the message channel is handed to the response matcher / reply function, and a message is handed to the user's read/write callbacks, only on paths that crossed a branch on which hasComplete() of that same message is true or the connection's filter flag is false: an incomplete sub-package set is never delivered as a message"
+	// good edges of a function for message value m
+	reachNoGood := func(fn *ssa.Function, m ssa.Value, from *ssa.BasicBlock) map[*ssa.BasicBlock]bool {
+		good := map[[2]*ssa.BasicBlock]bool{}
+		for _, b := range fn.Blocks {
+			iff, isIf := b.Instrs[len(b.Instrs)-1].(*ssa.If)
+			if !isIf || b.Succs[0] == b.Succs[1] {
+				continue
+			}
+			cond, neg := iff.Cond, false
+			for {
+				u, isU := cond.(*ssa.UnOp)
+				if !isU || u.Op != token.NOT {
+					break
+				}
+				cond, neg = u.X, !neg
+			}
+			if n, call := callMethodName(cond); n == "hasComplete" && call != nil && len(call.Call.Args) == 1 && call.Call.Args[0] == m {
+				if neg {
+					good[[2]*ssa.BasicBlock{b, b.Succs[1]}] = true
+				} else {
+					good[[2]*ssa.BasicBlock{b, b.Succs[0]}] = true
+				}
+			}
+			if owner, f, ok := fieldLoad(cond); ok && owner == "connection" && f == "filter" {
+				if neg {
+					good[[2]*ssa.BasicBlock{b, b.Succs[0]}] = true
+				} else {
+					good[[2]*ssa.BasicBlock{b, b.Succs[1]}] = true
+				}
+			}
+		}
+		seen := map[*ssa.BasicBlock]bool{from: true}
+		work := []*ssa.BasicBlock{from}
+		for len(work) > 0 {
+			b := work[len(work)-1]
+			work = work[:len(work)-1]
+			for _, s := range b.Succs {
+				if good[[2]*ssa.BasicBlock{b, s}] || seen[s] {
+					continue
+				}
+				seen[s] = true
+				work = append(work, s)
+			}
+		}
+		return seen
+	}
+	usesMsg := func(call *ssa.CallCommon, m ssa.Value) bool {
+		args := call.Args
+		for _, a := range args {
+			if a == m {
+				return true
+			}
+			if u, isU := a.(*ssa.UnOp); isU && u.Op == token.MUL && u.X == m {
+				return true
+			}
+		}
+		return false
+	}
+	nConsumer, nCallback := 0, 0
+	for _, fn := range c.RepoFuncs("service") {
+		// (a) messages received from the message channel
+		var received []ssa.Value
+		for _, b := range fn.Blocks {
+			for _, ins := range b.Instrs {
+				switch x := ins.(type) {
+				case *ssa.Select:
+					k := 0
+					for _, s := range x.States {
+						if s.Dir != types.RecvOnly {
+							continue
+						}
+						if _, f, ok := fieldLoad(s.Chan); ok && f == "msgChan" {
+							for _, ref := range *x.Referrers() {
+								if ex, isEx := ref.(*ssa.Extract); isEx && ex.Index == 2+k {
+									received = append(received, ex)
+								}
+							}
+						}
+						k++
+					}
+				case *ssa.UnOp:
+					if x.Op == token.ARROW {
+						if _, f, ok := fieldLoad(x.X); ok && f == "msgChan" {
+							if x.CommaOk {
+								for _, ref := range *x.Referrers() {
+									if ex, isEx := ref.(*ssa.Extract); isEx && ex.Index == 0 {
+										received = append(received, ex)
+									}
+								}
+							} else {
+								received = append(received, x)
+							}
+						}
+					}
+				}
+			}
+		}
+		for _, m := range received {
+			def := m.(ssa.Instruction).Block()
+			open := reachNoGood(fn, m, def)
+			for _, b := range fn.Blocks {
+				for _, ins := range b.Instrs {
+					call, isC := ins.(*ssa.Call)
+					if !isC || !usesMsg(&call.Call, m) {
+						continue
+					}
+					n, _ := callMethodName(call)
+					if n == "hasComplete" {
+						continue
+					}
+					nConsumer++
+					st, d := report.Discharged, ""
+					if open[b] {
+						st = report.Violated
+						d = fmt.Sprintf("%s is reachable at %s with a message from the message channel without a test that the message is complete (or that filtering is off): a single sub-package is treated as a whole message", n, c.P.RelPos(ins.Pos()))
+					}
+					R.Add("S.deliver-complete-only", shortFn(fn)+" / "+n+"(received message)", c.P.RelPos(ins.Pos()), st, d)
+				}
+			}
+		}
+		// (b) user callbacks taking a message parameter of the function
+		for _, prm := range fn.Params {
+			if !strings.HasSuffix(prm.Type().String(), "service.Message") {
+				continue
+			}
+			var open map[*ssa.BasicBlock]bool
+			for _, b := range fn.Blocks {
+				for _, ins := range b.Instrs {
+					call, isC := ins.(*ssa.Call)
+					if !isC || !call.Call.IsInvoke() || !usesMsg(&call.Call, prm) {
+						continue
+					}
+					n := call.Call.Method.Name()
+					if !strings.HasSuffix(n, "ExecutionEvent") {
+						continue
+					}
+					if open == nil {
+						open = reachNoGood(fn, prm, fn.Blocks[0])
+					}
+					nCallback++
+					st, d := report.Discharged, ""
+					if open[b] {
+						st = report.Violated
+						d = fmt.Sprintf("the user callback %s is reachable at %s without a test that the message is complete (or that filtering is off)", n, c.P.RelPos(ins.Pos()))
+					}
+					R.Add("S.deliver-complete-only", shortFn(fn)+" / callback "+n+" via "+strings.TrimPrefix(call.Call.Value.Type().String(), "github.com/cuteLittleDevil/go-jt808/"), c.P.RelPos(ins.Pos()), st, d)
+				}
+			}
+		}
+	}
+	R.Notes["deliver_complete_only"] = fmt.Sprintf("%d consumer call sites, %d callback invocations", nConsumer, nCallback)
+	if nConsumer < 2 || nCallback < 4 {
+		R.Fatal("S.deliver-complete-only matched %d consumer call sites and %d callback invocations (confirmed by hand: 2 and 4)", nConsumer, nCallback)
+	}
 }
